@@ -9,7 +9,9 @@ for all sizes — it is covered by the docstring / `spec.eq` oracles on the expl
 -/
 import OFV.Proofs.C13
 import OFV.Proofs.C13Shape
+import OFV.Proofs.C13Shape2
 import OFV.Proofs.C13Grid
+import OFV.Proofs.C13Grid2
 import OFV.Proofs.C13Diag
 import OFV.Proofs.C13Sound
 import OFV.Proofs.C13Herm
@@ -18,6 +20,8 @@ import OFV.Proofs.C13RG
 import OFV.Proofs.C13Mel
 import OFV.Proofs.C13Bose
 import OFV.Proofs.C13Herm2
+import OFV.Proofs.C13Exact
+import OFV.Proofs.C13Exact2
 import Mathlib.Tactic.NormNum
 
 namespace OFV.C13
@@ -170,6 +174,50 @@ theorem fermi_hubbard_model_conserves_number (tol : Rat) (m : FHM) :
     Conserves (fun _ => 1) (m.hamiltonian tol) :=
   conserves_fhm m (fun _ _ => rfl)
 
+/-- **FermiHubbardModel, spin-resolved conservation.**  `FermiHubbardModel.hamiltonian()` (any lattice, any list of
+tunneling / interaction / potential parameters, any field, with or without particle-hole symmetry) conserves every
+mode weight that depends on the spin index of `to_spin_orbital_index(site, dof, spin)` only: tunneling connects
+equal spin indices, all other terms are products of number operators. -/
+theorem fermi_hubbard_model_conserves_spin_resolved (tol : Rat) (m : FHM) (w : Nat → Int)
+    (hw : SpinResolved m.lattice w) : Conserves w (m.hamiltonian tol) :=
+  conserves_fhm_spin m hw
+
+/-- `FermiHubbardModel.hamiltonian()` on a spinful lattice conserves `S_z` (closes the S_z item of the open
+statements: it was covered by the `spec.eq` oracle only) -/
+theorem fermi_hubbard_model_conserves_sz (tol : Rat) (m : FHM) (hs : m.lattice.spinless = false) :
+    Conserves szWeight (m.hamiltonian tol) :=
+  conserves_fhm_spin m (spinResolved_sz _ hs)
+
+/-- … and the number of particles of each spin species `N_up` (`σ = 0`), `N_down` (`σ = 1`) separately -/
+theorem fermi_hubbard_model_conserves_spin_species (tol : Rat) (m : FHM) (hs : m.lattice.spinless = false) (σ : Nat) :
+    Conserves (spinCount σ) (m.hamiltonian tol) :=
+  conserves_fhm_spin m (spinResolved_count _ hs σ)
+
+/-- consequence at Spec level: every term of `FermiHubbardModel.hamiltonian()` on a spinful lattice maps a Fock
+basis state to a basis state with the same `2 S_z` and the same `N_σ` -/
+theorem fermi_hubbard_model_preserves_sz (tol : Rat) (m : FHM) (hs : m.lattice.spinless = false)
+    (e : Term × GQ) (he : e ∈ m.hamiltonian tol) (n s k s' : Nat)
+    (hm : ∀ f ∈ e.1, f.1 < n) (h : actFTerm e.1 s = some (k, s')) :
+    wt szWeight n s' = wt szWeight n s ∧ ∀ σ, wt (spinCount σ) n s' = wt (spinCount σ) n s := by
+  refine ⟨?_, fun σ => ?_⟩
+  · have := actFTerm_wt szWeight n e.1 s k s' hm h
+    rw [fermi_hubbard_model_conserves_sz tol m hs e he] at this
+    simpa using this
+  · have := actFTerm_wt (spinCount σ) n e.1 s k s' hm h
+    rw [fermi_hubbard_model_conserves_spin_species tol m hs σ e he] at this
+    simpa using this
+
+/-- the `onsite` edge type of `site_pairs_iter`: exactly the pairs `(i, i)` of the sites, each once, in order -/
+theorem site_pairs_onsite_spec (l : Lattice) (ordered : Bool) (i j : Nat) :
+    ((i, j) ∈ l.sitePairs 0 ordered ↔ i = j ∧ i < l.nSites) ∧ (l.sitePairs 0 ordered).Nodup := by
+  constructor
+  · simp only [Lattice.sitePairs, List.mem_map, List.mem_range, Prod.mk.injEq]
+    constructor
+    · rintro ⟨a, ha, rfl, rfl⟩; exact ⟨rfl, ha⟩
+    · rintro ⟨rfl, hi⟩; exact ⟨i, hi, rfl, rfl⟩
+  · simp only [Lattice.sitePairs]
+    exact List.Nodup.map (fun a b hab => (Prod.mk.inj hab).1) List.nodup_range
+
 /-! ### operator-level soundness (dictionary semantics `den φ A = Σ c · φ τ` of C01)
 
 `ExactSum tol [] pieces`: every `+=` of the site loop is in the exact regime (an intermediate coefficient is
@@ -255,6 +303,46 @@ theorem spinless_hubbard_sound_spec (tol : Rat) (s t : Nat) (a : HubbardArgs) (h
       gsumL ((List.range (a.x * a.y)).map fun i => (-a.mu) * mel s t [(i, 1), (i, 0)]) :=
   spinless_hubbard_sound_mel tol s t a hphs hex ht hreg
 
+/-- **exact_regime_of_grid.**  The exact-regime hypothesis `ExactSum` of the soundness theorems holds whenever every
+coefficient of the start value and of every piece lies on a grid `(1/D) ℤ[i]` with `tol · D ≤ 1`: all intermediate
+coefficients of the `+=` fold stay on the grid, and a grid point of modulus `< tol` is zero -/
+theorem exact_regime_of_grid (D : Nat) (hD : 0 < D) (tol : Rat) (htol : tol * tol * ((D : Rat) * D) ≤ 1)
+    (init : Op) (pieces : List Op) (hi : OpOnGrid D init) (hp : ∀ p ∈ pieces, OpOnGrid D p) :
+    ExactSum tol init pieces :=
+  exactSum_of_grid hD htol init pieces hi hp
+
+/-- **hubbard_sound against the Spec, exact-regime hypothesis discharged** (spinless `fermi_hubbard`, every lattice
+size, both boundary conditions): for real `t` and couplings `t, U, μ ∈ (1/D) ℤ[i]` with `tol · D ≤ 1` (all dyadic
+couplings the harness generates, at `EQ_TOLERANCE`) every Spec matrix element of the Model's output is the matrix element
+of the docstring Hamiltonian over the Spec edge set — no hypothesis about the `+=` steps is left -/
+theorem spinless_hubbard_sound_spec_grid (D : Nat) (hD : 0 < D) (tol : Rat) (htol : tol * tol * ((D : Rat) * D) ≤ 1)
+    (s t : Nat) (a : HubbardArgs) (hphs : a.phs = false)
+    (hgt : OnGrid D a.t) (hgu : OnGrid D a.u) (hgmu : OnGrid D a.mu) (ht : a.t.conj = a.t) :
+    den (mel s t) (spinlessFermiHubbard tol a) =
+      gsumL ((edges adjNN a.x a.y a.periodic).map fun e =>
+        (-a.t) * mel s t [(e.1, 1), (e.2, 0)] + (-a.t) * mel s t [(e.2, 1), (e.1, 0)] +
+          a.u * mel s t [(e.1, 1), (e.1, 0), (e.2, 1), (e.2, 0)]) +
+      gsumL ((List.range (a.x * a.y)).map fun i => (-a.mu) * mel s t [(i, 1), (i, 0)]) :=
+  spinless_hubbard_sound_mel tol s t a hphs (spinless_exact_of_grid hD htol a hphs hgt hgu hgmu) ht
+    (hopping_reg_of_grid hD htol hgt)
+
+/-- the same for the spinful model (couplings `t, U, μ, h` on the grid), every term functional `φ` -/
+theorem spinful_hubbard_sound_grid (D : Nat) (hD : 0 < D) (tol : Rat) (htol : tol * tol * ((D : Rat) * D) ≤ 1)
+    (φ : Term → GQ) (a : HubbardArgs) (hphs : a.phs = false)
+    (hgt : OnGrid D a.t) (hgu : OnGrid D a.u) (hgmu : OnGrid D a.mu) (hgh : OnGrid D a.h) (ht : a.t.conj = a.t) :
+    den φ (spinfulFermiHubbard tol a) =
+      gsumL ((edges adjNN a.x a.y a.periodic).map fun e =>
+        ((-a.t) * φ [(2 * e.1, 1), (2 * e.2, 0)] + (-a.t) * φ [(2 * e.2, 1), (2 * e.1, 0)]) +
+        ((-a.t) * φ [(2 * e.1 + 1, 1), (2 * e.2 + 1, 0)] + (-a.t) * φ [(2 * e.2 + 1, 1), (2 * e.1 + 1, 0)])) +
+      gsumL ((List.range (a.x * a.y)).map (spinSiteDen tol φ a)) :=
+  spinful_hubbard_sound' tol φ a (spinful_exact_of_grid hD htol a hphs hgt hgu hgmu hgh) ht
+    (hopping_reg_of_grid hD htol hgt)
+
+/-- non-vacuity of the grid hypotheses at `EQ_TOLERANCE = 1e-8`: quarter-integer couplings -/
+example : GQ.eqTol * GQ.eqTol * (((4 : Nat) : Rat) * (4 : Nat)) ≤ 1 := by
+  simp only [GQ.eqTol]; norm_num
+example : OnGrid 4 (⟨3 / 4, -1 / 2⟩ : GQ) := ⟨3, -2, by norm_num, by norm_num⟩
+
 /-- **hubbard_sound (`bose_hubbard`)**: every lattice size, both boundary conditions, real hopping amplitude, EVERY term
 functional `φ`: the Model's output denotes `-t Σ_⟨ij⟩ (b†_i b_j + b†_j b_i) + V Σ_⟨ij⟩ n_i n_j` over the Spec edge set
 (keys as BosonOperator stores them, `hopKey` / `nnKey`) plus the on-site `U/2 n(n-1) - μ n` terms of every site -/
@@ -266,6 +354,43 @@ theorem bose_hubbard_sound (tol : Rat) (φ : Term → GQ) (a : HubbardArgs)
         ((-a.t) * φ (hopKey e.1 e.2) + (-a.t) * φ (hopKey e.2 e.1)) + a.h * φ (nnKey e.1 e.2)) +
       gsumL ((List.range (a.x * a.y)).map (boseSiteDen tol φ a)) :=
   bose_hubbard_sound' tol φ a hex ht hreg
+
+/-- **exact regime of all three site loops, particle-hole form included.**  For couplings on `(1/D) ℤ[i]` and
+`tol · 4D ≤ 1` (the factors `1/2`, `1/4` of the particle-hole shift and of the on-site boson term refine the grid by 4)
+every `+=` of the spinless / spinful `fermi_hubbard` and of the `bose_hubbard` site loop is in the exact regime: the
+coefficient grid is preserved by `mk`, scalar multiples, `-=`, `+=` and products of ladder-operator dictionaries -/
+theorem hubbard_exact_regime_of_grid (D : Nat) (hD : 0 < D) (tol : Rat)
+    (htol : tol * tol * (((D * 4 : Nat) : Rat) * (D * 4 : Nat)) ≤ 1) (a : HubbardArgs)
+    (hgt : OnGrid D a.t) (hgu : OnGrid D a.u) (hgmu : OnGrid D a.mu) (hgh : OnGrid D a.h) :
+    ExactSum tol [] ((List.range (a.x * a.y)).flatMap (spinlessPieces tol a)) ∧
+    ExactSum tol [] ((List.range (a.x * a.y)).flatMap (spinfulPieces tol a)) ∧
+    ExactSum tol [] ((List.range (a.x * a.y)).flatMap (bosePieces tol a)) :=
+  ⟨spinless_exact_of_grid4 hD htol a hgt hgu hgmu, spinful_exact_of_grid4 hD htol a hgt hgu hgmu hgh,
+    bose_exact_of_grid4 hD htol a hgt hgu hgmu hgh⟩
+
+/-- **hubbard_sound (`bose_hubbard`), exact-regime hypothesis discharged**: every lattice size, both boundary conditions,
+real hopping amplitude, couplings on `(1/D) ℤ[i]` with `tol · 4D ≤ 1`, EVERY term functional `φ` — no hypothesis about
+the `+=` steps is left -/
+theorem bose_hubbard_sound_grid (D : Nat) (hD : 0 < D) (tol : Rat)
+    (htol : tol * tol * (((D * 4 : Nat) : Rat) * (D * 4 : Nat)) ≤ 1) (φ : Term → GQ) (a : HubbardArgs)
+    (hgt : OnGrid D a.t) (hgu : OnGrid D a.u) (hgmu : OnGrid D a.mu) (hgh : OnGrid D a.h) (ht : a.t.conj = a.t) :
+    den φ (boseHubbard tol a) =
+      gsumL ((edges adjNN a.x a.y a.periodic).map fun e =>
+        ((-a.t) * φ (hopKey e.1 e.2) + (-a.t) * φ (hopKey e.2 e.1)) + a.h * φ (nnKey e.1 e.2)) +
+      gsumL ((List.range (a.x * a.y)).map (boseSiteDen tol φ a)) :=
+  bose_hubbard_sound' tol φ a (bose_exact_of_grid4 hD htol a hgt hgu hgmu hgh) ht (hopping_reg_of_grid4 hD htol hgt)
+
+/-- the spinful model WITH or without the particle-hole shift, every term functional `φ` -/
+theorem spinful_hubbard_sound_grid_phs (D : Nat) (hD : 0 < D) (tol : Rat)
+    (htol : tol * tol * (((D * 4 : Nat) : Rat) * (D * 4 : Nat)) ≤ 1) (φ : Term → GQ) (a : HubbardArgs)
+    (hgt : OnGrid D a.t) (hgu : OnGrid D a.u) (hgmu : OnGrid D a.mu) (hgh : OnGrid D a.h) (ht : a.t.conj = a.t) :
+    den φ (spinfulFermiHubbard tol a) =
+      gsumL ((edges adjNN a.x a.y a.periodic).map fun e =>
+        ((-a.t) * φ [(2 * e.1, 1), (2 * e.2, 0)] + (-a.t) * φ [(2 * e.2, 1), (2 * e.1, 0)]) +
+        ((-a.t) * φ [(2 * e.1 + 1, 1), (2 * e.2 + 1, 0)] + (-a.t) * φ [(2 * e.2 + 1, 1), (2 * e.1 + 1, 0)])) +
+      gsumL ((List.range (a.x * a.y)).map (spinSiteDen tol φ a)) :=
+  spinful_hubbard_sound' tol φ a (spinful_exact_of_grid4 hD htol a hgt hgu hgmu hgh) ht
+    (hopping_reg_of_grid4 hD htol hgt)
 
 /-- **hermitian_generators (spinful `fermi_hubbard`)**: real `t`, `U`, `μ`, `h`, every lattice size: every matrix element
 of the Model's output computed with the Spec action satisfies `⟦H⟧_{φ†} = conj ⟦H⟧_φ` for `φ = mel s t`
@@ -320,6 +445,26 @@ theorem grid_indices_orbital_id_spin (L cs : List Nat) (σ : Nat) (hσ : σ < 2)
     (h : List.Forall₂ (· < ·) cs L) :
     gridIndices L (orbitalId L cs (some σ)) false = cs ∧ orbitalId L cs (some σ) % 2 = σ :=
   gridIndices_orbitalId_spin L cs σ hσ h
+
+/-- **all_points_spec.**  `Grid.all_points_indices()` (every dimension, every shape) yields exactly the coordinate
+tuples inside the grid, each once -/
+theorem all_points_spec (L : List Nat) :
+    (∀ cs, cs ∈ allPoints L ↔ List.Forall₂ (· < ·) cs L) ∧ (allPoints L).Nodup :=
+  ⟨mem_allPoints L, allPoints_nodup L⟩
+
+/-- **orbital_id is a bijection from the grid points onto `range(num_points)`**: the orbital ids of
+`all_points_indices()` are a permutation of `0 … num_points - 1` (no orbital is skipped or visited twice by the loops
+of the jellium generators) -/
+theorem all_points_orbital_bijection (L : List Nat) :
+    ((allPoints L).map fun cs => orbitalId L cs none).Perm (List.range (numPoints L)) :=
+  allPoints_orbital_perm L
+
+/-- **plane_wave_kinetic_structure_spec.**  For every grid shape the spinless `plane_wave_kinetic` loop adds exactly
+one number operator per orbital `q < num_points`, with the momentum `index_to_momentum_ints(grid_indices(q))` -/
+theorem plane_wave_kinetic_structure_spec (L : List Nat) :
+    (planeWaveKineticStruct L true).Perm
+      ((List.range (numPoints L)).map fun q => ([(q, 1), (q, 0)], momentumInts L (gridIndices L q true))) :=
+  kineticStruct_spinless_perm L
 
 /-! non-vacuity: concrete lattices with a length-2 periodic dimension -/
 example : (edges adjNN 2 3 true).length = 9 := by decide
